@@ -305,12 +305,12 @@ def run(ctx):
         v = statement_verdict(r)
         (bad if v else good).append((r, v))
 
-    # spec-level counterexample must reproduce on the real code, else it is a spec problem
-    if cex_cases:
-        cex_run = runs[0]
-        if statement_verdict(cex_run) is None:
-            raise InfraError("the spec-level counterexample does not reproduce on the real code (spec infidelity): %s -> %s"
-                             % (describe(cex_run), cex_run[-1]["obs"]))
+    # The spec-level counterexample is replayed like every other case.  If it reproduces, the statement check below
+    # reports it.  If it does not, the real code deviates from the (faithful) spec on that very input and the trace
+    # validation below rejects the case (reported as nonconformance) -- nothing is silently dropped.
+    if cex_cases and statement_verdict(runs[0]) is None:
+        notes.append("the spec-level counterexample did not reproduce on the real code: %s -> %s" % (
+            describe(runs[0]), runs[0][-1]["obs"]))
 
     by_class = {}
     for r, (cls, text) in bad:
@@ -347,7 +347,7 @@ def run(ctx):
         o = r[-1]["obs"]
         k = "%s/%s" % (o["err"], "target" if o["target"]["present"] else "notarget")
         outcomes[k] = outcomes.get(k, 0) + 1
-    if len(abstract) < 20 or outcomes.get("none/target", 0) < 10 or outcomes.get("hash/notarget", 0) < 5:
+    if not violations and (len(abstract) < 20 or outcomes.get("none/target", 0) < 10 or outcomes.get("hash/notarget", 0) < 5):
         raise InfraError("vacuity guard: real executions too uniform: %s, %d abstract states" % (outcomes, len(abstract)))
 
     samples = [{"input": describe(r), "outcome": r[-1]["obs"]} for r in
